@@ -203,10 +203,11 @@ def special_cases(ctx, lines, keep):
     optimiser gives up on (a budget of function evaluations that is too small): whatever `success` says, the
     columns must be consistent with it"""
     rng = ctx.rng
-    for i in range(6 if ctx.tier == "quick" else 80):
+    for i in range(8 if ctx.tier == "quick" else 80):
         mk = rng.choice(fitlib.MODELS[:4])
         truth = fitlib.truth_params(mk, rng, cp=0.0)
-        kind = ["dwell-seg2", "dwell-seg0", "budget", "dwell-seg2-range", "budget-nelder", "dwell-seg1"][i % 6]
+        kind = ["dwell-seg2", "dwell-seg0", "budget", "dwell-seg2-range", "budget-nelder", "dwell-seg1",
+                "scan-after-fit", "scan-after-fit"][i % 8]
         p0 = copy.deepcopy(truth)
         p0["E"].set(value=truth["E"].value * rng.uniform(0.6, 1.6))
         if kind.startswith("dwell"):
@@ -215,6 +216,11 @@ def special_cases(ctx, lines, keep):
             kw = dict(model_key=mk, params_initial=p0, range_type="absolute",
                       range_x=(-6e-7, 4e-7) if kind == "dwell-seg2-range" else (0, 0), segment=seg,
                       weight_cp=rng.choice([0, 5e-7]), gcf_k=1.0, preprocessing=[])
+        elif kind == "scan-after-fit":
+            # an ordinary fit, then the E(delta) scan is requested: the reported results must still be those of the fit
+            idnt = fitlib.synth_curve(mk, truth, rng, n_app=200, n_ret=100, noise=2e-11, seed=9000 + i)
+            kw = dict(model_key=mk, params_initial=p0, range_type="absolute", range_x=(0, 0), segment=0,
+                      weight_cp=rng.choice([0, 5e-7]), gcf_k=1.0, preprocessing=[], optimal_fit_num_samples=6)
         else:
             idnt = fitlib.synth_curve(mk, truth, rng, n_app=200, n_ret=100, noise=2e-11, seed=9000 + i)
             p0["contact_point"].set(value=3e-7)
@@ -226,6 +232,14 @@ def special_cases(ctx, lines, keep):
                 "weight_cp": kw["weight_cp"], "segment": str(kw["segment"]), "range_x": list(kw["range_x"]),
                 "method_kws": kw.get("method_kws", {})}
         res, rec = fitlib.fit(idnt, **copy.deepcopy(kw))
+        if res == "ok" and kind == "scan-after-fit":
+            with warnings.catch_warnings():
+                warnings.simplefilter("ignore")
+                try:
+                    idnt.compute_emodulus_mindelta()
+                    meta["then"] = "compute_emodulus_mindelta()"
+                except BaseException as e:  # noqa
+                    meta["then"] = "compute_emodulus_mindelta() raised " + type(e).__name__
         if res != "ok":
             ctx.case({**meta, "result": res}, bucket=["stream=special", "kind=" + kind, "result=" + res])
             if kind.startswith("dwell") and kind != "dwell-seg1":
@@ -272,6 +286,11 @@ def run(ctx):
         res, rec = fitlib.fit(idnt, **copy.deepcopy(kw))
         if res != "ok":
             ctx.case({**meta, "result": res}, bucket=["result=" + res])
+            if res not in ("err FitDataError", "err FitKeyError", "err KeyError"):
+                # an interval that holds too few points is an unsuccessful fit (success False, NaN columns), not an
+                # exception of the numerical library
+                ctx.violation("fit-raises:" + res.split()[-1], f"fit_model raises ({res}) instead of reporting an "
+                              f"unsuccessful fit", {"input": meta, "observed": res})
             continue
         obs = observe(idnt, kw, meta)
         ctx.case({**meta, "success": obs["success"], "passes": len(rec.calls)},
